@@ -272,6 +272,19 @@ static std::string make_input(uint64_t seed, uint64_t idx, unsigned* mask, int* 
   return s;
 }
 
+// logical cap: product of all <replicate count="n"> multiplicities (nesting upper bound); huge products are legitimate
+// but only exercise the allocator and the watchdog
+static double replicate_product(const std::string& s) {
+  double prod = 1; size_t pos = 0;
+  while ((pos = s.find("<replicate", pos)) != std::string::npos) {
+    size_t e = s.find('>', pos); if (e == std::string::npos) break;
+    size_t c = s.find("count=", pos);
+    if (c != std::string::npos && c < e && c + 7 < s.size()) { double v = atof(s.c_str() + c + 7); if (v > 1) prod *= v; }
+    pos = e;
+  }
+  return prod;
+}
+
 // ------------------------------------------------------------------------------------------ execution
 static sigjmp_buf g_jb;
 static volatile int g_armed = 0;          // 1: parse/compile (escape = violation), 2: run phase (tolerated)
@@ -454,7 +467,7 @@ int main(int argc, char** argv) {
     unsigned mask; int api, errsz;
     std::string in = make_input(seed, i, &mask, &api, &errsz);
     g_index = (long)i;
-    if (in.size() > 256 * 1024) { S.big++; continue; }
+    if (in.size() > 256 * 1024 || replicate_product(in) > 1500) { S.big++; continue; }
     printf("B %llu\n", (unsigned long long)i);
     const char* o = run_one(in, api, errsz, timeout_s);
     S.execs++;
